@@ -9,6 +9,7 @@ package main
 // ordinary external call it is.
 
 import (
+	"go/token"
 	"go/types"
 	"strings"
 
@@ -113,6 +114,39 @@ func (en *Engine) bytesOfReader(st *State, r Val) Val {
 // do; otherwise (name, args) may have been rewritten to an alias and the ordinary path continues.
 func (en *Engine) canonical(st *State, fr *Frame, x *ssa.Call, name string, args []Val) (string, []Val, bool) {
 	switch name {
+	case "github.com/russellhaering/goxmldsig/etreeutils.NSFindIterateCtx":
+		// NSFindIterate(el, ns, tag, h) is NSFindIterateCtx(NewDefaultNSContext(), el, ns, tag, h)
+		if len(args) == 5 {
+			if cv, ok := args[0].(*CallV); ok && strings.HasSuffix(cv.Callee, "etreeutils.NewDefaultNSContext") {
+				return "github.com/russellhaering/goxmldsig/etreeutils.NSFindIterate", args[1:], false
+			}
+		}
+	case "(crypto.Hash).New":
+		if len(args) == 1 {
+			if k, ok := constInt(args[0]); ok {
+				switch k {
+				case 3:
+					return "crypto/sha1.New", nil, false
+				case 5:
+					return "crypto/sha256.New", nil, false
+				case 7:
+					return "crypto/sha512.New", nil, false
+				}
+			}
+		}
+	case "(*html/template.Template).ExecuteTemplate":
+		// a template executing itself by its own name
+		if len(args) == 4 {
+			if n, ok := constString(args[2]); ok && templateName(args[0]) == n && n != "" {
+				return "(*html/template.Template).Execute", []Val{args[0], args[1], args[3]}, false
+			}
+		}
+	case "fmt.Sprintf":
+		// a constant format of literal text and %s verbs over strings and module Stringers is a concatenation
+		if v := en.sprintfConcat(st, fr, x, args); v != nil {
+			fr.env[x] = v
+			return name, args, true
+		}
 	case "bytes.NewBuffer":
 		// used as a reader of b: the same bytes come out
 		return "bytes.NewReader", args, false
@@ -302,4 +336,112 @@ func isGlobalLoad(v Val, full string) bool {
 	}
 	g, ok := l.Addr.(*GlobalV)
 	return ok && g.G != nil && g.G.Pkg != nil && g.G.Pkg.Pkg.Path()+"."+g.G.Name() == full
+}
+
+// templateName: the name given to template.New at the root of a Must(Parse(New(name))) chain ("" if unknown).
+func templateName(v Val) string {
+	for i := 0; i < 6; i++ {
+		cv, ok := v.(*CallV)
+		if !ok || len(cv.Args) == 0 {
+			if l, isLoad := v.(*LoadV); isLoad {
+				_ = l
+			}
+			return ""
+		}
+		if cv.Callee == "html/template.New" {
+			n, _ := constString(cv.Args[0])
+			return n
+		}
+		v = cv.Args[0]
+	}
+	return ""
+}
+
+// sprintfConcat: fmt.Sprintf("lit%slit%s", a, b) with every verb %s and every operand a string or a pointer to a module
+// type with a String() method — the value is "lit" + str(a) + "lit" + str(b).
+func (en *Engine) sprintfConcat(st *State, fr *Frame, x *ssa.Call, args []Val) Val {
+	if len(args) != 2 {
+		return nil
+	}
+	format, ok := constString(args[0])
+	if !ok || !strings.Contains(format, "%") {
+		return nil
+	}
+	ops, ok := en.variadicElems(st, args[1])
+	if !ok {
+		return nil
+	}
+	var parts []Val
+	lit := ""
+	oi := 0
+	for i := 0; i < len(format); i++ {
+		if format[i] != '%' {
+			lit += string(format[i])
+			continue
+		}
+		if i+1 >= len(format) || format[i+1] != 's' || oi >= len(ops) {
+			return nil
+		}
+		i++
+		if lit != "" {
+			parts = append(parts, strV(lit))
+			lit = ""
+		}
+		op := stripIface(ops[oi])
+		oi++
+		switch {
+		case isStringType(op.Type()):
+			parts = append(parts, op)
+		default:
+			// Stringer of the module with a contract for String()
+			name := "(" + types.TypeString(op.Type(), nil) + ").String"
+			if ct := lookupContract(name); ct == nil || !ct.Det {
+				return nil
+			}
+			parts = append(parts, mkCall(name, nil, []Val{op}, "", 0, 1, tString))
+		}
+	}
+	if oi != len(ops) {
+		return nil
+	}
+	if lit != "" {
+		parts = append(parts, strV(lit))
+	}
+	if len(parts) == 0 {
+		return nil
+	}
+	v := parts[0]
+	for _, p := range parts[1:] {
+		v = mkBin(token.ADD, v, p, tString)
+	}
+	return v
+}
+
+// variadicElems: the operands packed into a variadic []interface{} argument built at the call site.
+func (en *Engine) variadicElems(st *State, v Val) ([]Val, bool) {
+	s, ok := v.(*SliceV)
+	if !ok {
+		return nil, false
+	}
+	a, ok := s.X.(*AllocV)
+	if !ok {
+		return nil, false
+	}
+	p, ok := a.Type().Underlying().(*types.Pointer)
+	if !ok {
+		return nil, false
+	}
+	arr, ok := p.Elem().Underlying().(*types.Array)
+	if !ok || arr.Len() > 8 {
+		return nil, false
+	}
+	out := make([]Val, arr.Len())
+	for i := range out {
+		c, has := st.heap[mkIndexAddr(a, intV(int64(i)), arr.Elem()).Key()]
+		if !has {
+			return nil, false
+		}
+		out[i] = c.val
+	}
+	return out, true
 }
